@@ -108,6 +108,8 @@ type loopCtx struct {
 	mode  int // 0 generic, 1 exitZ, 2 exitG, 3 concrete (constant trip count: executed as written)
 	id    string
 	trips int
+	phis  []PhiInfo      // header phis with their entry values (generic iteration)
+	pre   map[string]Val // heap contents at loop entry (before the loop-carried locations were forgotten)
 }
 
 type Frame struct {
@@ -159,6 +161,7 @@ type Engine struct {
 	loops      map[*ssa.Function]map[*ssa.BasicBlock]*loopInfo
 	Errors     []string
 	boundInl   map[*ssa.Function]bool // methods whose method value was created by simulated code: inlined like closures
+	Excluded   map[*ssa.Function]bool // functions the kernel wants to see as calls, even when reached through a method value
 	NotInlined map[*ssa.Function]bool // module callees that were summarised instead of inlined at some site
 	// ParamNonNil: assume pointer parameters / receivers of the root non-nil
 	steps int
@@ -370,6 +373,9 @@ func (en *Engine) runUntilBranch(st *State) ([]*State, *Terminal, error) {
 			iv := en.eval(st, fr, x.Index)
 			st.addEvent(&Event{Kind: EvIndex, Instr: x, X: xv, I: iv})
 			fr.env[x] = mkIndex(xv, iv, x.Type())
+			if _, isLit := xv.(*ArrayLitV); isLit {
+				fr.env[x] = mkIndexOfValue(xv, iv, x.Type())
+			}
 			// element of a copy of an effectively-constant package-level array (never written outside init)
 			if l, ok := xv.(*LoadV); ok {
 				if _, isG := directBase(l.Addr).(*GlobalV); isG {
@@ -670,6 +676,15 @@ func (en *Engine) load(st *State, addr Val, t types.Type) Val {
 	if c, ok := st.heap[addr.Key()]; ok {
 		return c.val
 	}
+	// element of a comprehension / of a slice value assembled by appends on this path
+	if ia, ok := addr.(*IndexAddrV); ok {
+		if m, isMap := ia.X.(*MapV); isMap {
+			return mkMapElem(m, ia.I, t)
+		}
+		if v, ok := en.appendElem(st, ia.X, ia.I); ok {
+			return v
+		}
+	}
 	// field of a struct stored whole
 	if fa, ok := addr.(*FieldAddrV); ok {
 		if pv, ok := en.loadIfStored(st, fa.X); ok {
@@ -703,6 +718,13 @@ func (en *Engine) load(st *State, addr Val, t types.Type) Val {
 					}
 					return mkStructLit(t, names, fields)
 				}
+				if arr, ok := t.Underlying().(*types.Array); ok && arr.Len() <= 32 {
+					elems := make([]Val, arr.Len())
+					for i := range elems {
+						elems[i] = en.load(st, mkIndexAddr(addr, intV(int64(i)), arr.Elem()), arr.Elem())
+					}
+					return mkArrayLit(t, elems)
+				}
 				return mkLoad(addr, 0, t)
 			}
 			return zeroOf(t)
@@ -731,6 +753,11 @@ func (en *Engine) hasSubEntries(st *State, addr Val) bool {
 func (en *Engine) loadIfStored(st *State, addr Val) (Val, bool) {
 	if c, ok := st.heap[addr.Key()]; ok {
 		return c.val, true
+	}
+	if ia, ok := addr.(*IndexAddrV); ok {
+		if v, ok := en.appendElem(st, ia.X, ia.I); ok {
+			return v, true
+		}
 	}
 	if fa, ok := addr.(*FieldAddrV); ok {
 		if pv, ok := en.loadIfStored(st, fa.X); ok {
@@ -907,6 +934,9 @@ func (en *Engine) transfer(st *State, fr *Frame, to *ssa.BasicBlock) []*State {
 			break
 		}
 		fr.loops = fr.loops[:len(fr.loops)-1]
+		if top.mode == 2 && from == top.info.header {
+			en.summariseAccumulators(st, fr, top)
+		}
 		st.addEvent(&Event{Kind: EvLoopExit, Instr: from.Instrs[len(from.Instrs)-1], Callee: top.id})
 		if top.mode != 1 && top.mode != 3 {
 			st.popIter(top.id)
@@ -1009,6 +1039,12 @@ func (en *Engine) transfer(st *State, fr *Frame, to *ssa.BasicBlock) []*State {
 				}
 			}
 		}
+	}
+	lc := gf.loops[len(gf.loops)-1]
+	lc.phis = lev.Phis
+	lc.pre = make(map[string]Val, len(g.heap))
+	for k, c := range g.heap {
+		lc.pre[k] = c.val
 	}
 	en.havocLoopStores(g, gf, li)
 	en.enterBlock(g, gf, to, ov)
@@ -1278,6 +1314,8 @@ func nonNilByConstruction(v Val) bool {
 		return contractNonNil(x)
 	case *AppendV:
 		return len(x.Elems) > 0 && !x.Spread
+	case *MapV:
+		return true // exists only on paths where the loop completed at least one iteration
 	case *SliceV:
 		// slicing a non-nil array pointer
 		if _, ok := x.X.Type().Underlying().(*types.Pointer); ok {
@@ -1346,6 +1384,11 @@ func isSliceType(t types.Type) bool {
 
 // mkIndexOfValue: element i of an array value; an array loaded whole from memory is re-expressed as a load of the element.
 func mkIndexOfValue(arr Val, i Val, t types.Type) Val {
+	if al, ok := arr.(*ArrayLitV); ok {
+		if k, isC := constInt(i); isC && k >= 0 && int(k) < len(al.Elems) {
+			return al.Elems[k]
+		}
+	}
 	if l, ok := arr.(*LoadV); ok {
 		return mkLoad(mkIndexAddr(l.Addr, i, t), l.Epoch, t)
 	}
@@ -1478,6 +1521,7 @@ func (p *Prog) constGlobals(en *Engine) map[string]cell {
 	for _, pk := range p.Lib {
 		// candidates
 		cand := map[*ssa.Global]bool{}
+		refCand := map[*ssa.Global]bool{}
 		for _, m := range pk.Members {
 			g, ok := m.(*ssa.Global)
 			if !ok {
@@ -1486,6 +1530,12 @@ func (p *Prog) constGlobals(en *Engine) map[string]cell {
 			t := g.Type().Underlying().(*types.Pointer).Elem()
 			if constLikeType(t) {
 				cand[g] = true
+			} else if _, isPtr := t.Underlying().(*types.Pointer); isPtr {
+				// a pointer assigned once by the initialiser and afterwards only used as the receiver of
+				// concurrency-safe methods keeps denoting the object the initialiser built
+				if ok, _ := p.globalInitOnly(g); ok {
+					refCand[g] = true
+				}
 			}
 		}
 		// disqualify globals written or address-taken outside init
@@ -1542,7 +1592,7 @@ func (p *Prog) constGlobals(en *Engine) map[string]cell {
 				}
 			}
 		}
-		if len(cand) == 0 {
+		if len(cand) == 0 && len(refCand) == 0 {
 			continue
 		}
 		initFn := pk.Func("init")
@@ -1587,6 +1637,15 @@ func (p *Prog) constGlobals(en *Engine) map[string]cell {
 				p.globalInit[gv.Key()] = cell{gv, v}
 			}
 		}
+		for g := range refCand {
+			gv := &GlobalV{G: g}
+			gv.typ = g.Type()
+			gv.key = "&" + shortName(g.String())
+			et := g.Type().Underlying().(*types.Pointer).Elem()
+			if v, isCall := sub.load(fin, gv, et).(*CallV); isCall {
+				p.globalInit[gv.Key()] = cell{gv, v}
+			}
+		}
 	}
 	return p.globalInit
 }
@@ -1611,4 +1670,184 @@ func constLikeType(t types.Type) bool {
 		return true
 	}
 	return false
+}
+
+// summariseAccumulators runs when the generic iteration of a loop leaves through the header test (exhaustion). If the
+// loop visits every index of one collection in order (first index 0, step 1, test index < len(coll)), every slice that
+// the body extends by exactly one append per iteration from an empty start — held in a header phi or in a memory
+// location — is replaced by the comprehension [elem for coll]. Anything else keeps its generic-iteration value.
+func (en *Engine) summariseAccumulators(st *State, fr *Frame, lc *loopCtx) {
+	h := lc.info.header
+	if len(h.Instrs) == 0 {
+		return
+	}
+	ifi, ok := h.Instrs[len(h.Instrs)-1].(*ssa.If)
+	if !ok {
+		return
+	}
+	cmp, ok := ifi.Cond.(*ssa.BinOp)
+	if !ok || cmp.Op != token.LSS {
+		return
+	}
+	// index operand: phi (entry 0) or phi + 1 (entry -1), step 1
+	var iphi *ssa.Phi
+	off := int64(0)
+	switch x := cmp.X.(type) {
+	case *ssa.Phi:
+		iphi = x
+	case *ssa.BinOp:
+		if p, isPhi := x.X.(*ssa.Phi); isPhi && x.Op == token.ADD {
+			if c, isC := x.Y.(*ssa.Const); isC && isIntConst(c) {
+				iphi, off = p, c.Int64()
+			}
+		}
+	}
+	if iphi == nil || iphi.Block() != h {
+		return
+	}
+	okInd := false
+	for _, pi := range lc.phis {
+		if pi.Key == "loopphi("+lc.id+"."+iphi.Name()+")" && pi.HasStep && pi.Step == 1 {
+			if k, isC := constInt(pi.Init); isC && k+off == 0 {
+				okInd = true
+			}
+		}
+	}
+	if !okInd {
+		return
+	}
+	bound, isLen := fr.env[cmp.Y].(*CallV)
+	if !isLen || bound.Callee != "len" || len(bound.Args) != 1 {
+		return
+	}
+	coll := bound.Args[0]
+	empty := func(v Val) (bool, bool) {
+		if v == nil {
+			return false, false
+		}
+		if isNilConst(v) {
+			return true, false
+		}
+		if s, ok := v.(*SliceV); ok {
+			if a, ok := s.X.(*AllocV); ok {
+				if p, ok := a.Type().Underlying().(*types.Pointer); ok {
+					if arr, ok := p.Elem().Underlying().(*types.Array); ok && arr.Len() == 0 {
+						return true, true
+					}
+				}
+			}
+		}
+		if a, ok := v.(*AllocV); ok && a.Comment == "makeslice" {
+			if c, ok := st.heap["len:"+a.Key()]; ok && isConstInt(c.val, 0) {
+				return true, true
+			}
+		}
+		return false, false
+	}
+	single := func(v Val, carried func(Val) bool) (Val, bool) {
+		app, ok := v.(*AppendV)
+		if !ok || app.Spread || len(app.Elems) != 1 || !carried(app.S) {
+			return nil, false
+		}
+		return app.Elems[0], true
+	}
+	// registers
+	for _, in := range h.Instrs {
+		phi, ok := in.(*ssa.Phi)
+		if !ok {
+			break
+		}
+		if _, isSlice := phi.Type().Underlying().(*types.Slice); !isSlice {
+			continue
+		}
+		key := "loopphi(" + lc.id + "." + phi.Name() + ")"
+		var init Val
+		for _, pi := range lc.phis {
+			if pi.Key == key {
+				init = pi.Init
+			}
+		}
+		em, nn := empty(init)
+		if !em {
+			continue
+		}
+		elem, ok := single(fr.env[phi], func(s Val) bool { return s.Key() == key })
+		if !ok {
+			continue
+		}
+		fr.env[phi] = mkMap(coll, elem, nn, lc.id, phi.Type())
+	}
+	// memory
+	for hk, c := range st.heap {
+		if _, isSlice := c.val.Type().Underlying().(*types.Slice); !isSlice {
+			continue
+		}
+		em, nn := empty(lc.pre[hk])
+		if !em {
+			continue
+		}
+		loc := "loop-carried " + lvalKey(c.addr)
+		elem, ok := single(c.val, func(s Val) bool { u, isU := s.(*UnknownV); return isU && u.Why == loc })
+		if !ok {
+			continue
+		}
+		st.heap[hk] = cell{c.addr, mkMap(coll, elem, nn, lc.id, c.val.Type())}
+	}
+}
+
+// appendElem: element i (constant) of a slice value built on this path as append(...append(lit, a), b...): a fresh
+// backing store nobody else can have written, so the element is the appended value itself.
+func (en *Engine) appendElem(st *State, s Val, i Val) (Val, bool) {
+	if _, isApp := s.(*AppendV); !isApp {
+		return nil, false
+	}
+	k, isC := constInt(i)
+	if !isC || k < 0 {
+		return nil, false
+	}
+	var elems func(v Val) ([]Val, bool)
+	elems = func(v Val) ([]Val, bool) {
+		switch x := v.(type) {
+		case *ConstV:
+			if isNilConst(x) {
+				return nil, true
+			}
+		case *AllocV:
+			if x.Comment == "makeslice" {
+				if c, ok := st.heap["len:"+x.Key()]; ok && isConstInt(c.val, 0) {
+					return nil, true
+				}
+			}
+		case *AppendV:
+			if x.Spread {
+				return nil, false
+			}
+			b, ok := elems(x.S)
+			if !ok {
+				return nil, false
+			}
+			return append(b, x.Elems...), true
+		case *SliceV:
+			if a, ok := x.X.(*AllocV); ok && x.Lo == nil && x.Hi == nil {
+				if p, ok := a.Type().Underlying().(*types.Pointer); ok {
+					if arr, ok := p.Elem().Underlying().(*types.Array); ok && arr.Len() <= 32 {
+						if _, dirty := st.dirty[a.Key()]; dirty {
+							return nil, false
+						}
+						out := make([]Val, arr.Len())
+						for j := range out {
+							out[j] = en.load(st, mkIndexAddr(a, intV(int64(j)), arr.Elem()), arr.Elem())
+						}
+						return out, true
+					}
+				}
+			}
+		}
+		return nil, false
+	}
+	es, ok := elems(s)
+	if !ok || int(k) >= len(es) {
+		return nil, false
+	}
+	return es[k], true
 }
